@@ -79,7 +79,7 @@ CLAIMED.update({
             "DESIGN.md 4/C16"),
     "C17": ("Coq alias analysis with soundness theorem over an IR transcribed from the Go source on every run (veproduct, veconst) + object-identity model + harness run of every lookup function x mutation history x later calls",
             "C17_lookups_fresh: every function of veproduct and veconst that returns a map or slice (30: GetStringMap, 23 IntToStringMap, Decode, Fields), transcribed into the alias IR by gvgen alias from the current source, is accepted by the Coq check fun_ok; C17_fresh_sound: an accepted function, on every run of its flattened body (statements in any order, any number of times), stores nothing in a package-level variable, returns only objects allocated by that call and writes to nothing older, so what a caller receives is reachable from nowhere else; C17_lookups_covered: the IR contains the lookup functions the property names (checked against the T-obs factory tables). The harness run (product string map, 23 IntToStringMaps, Fields()/Decode() incl. raw value 0, per-product register lists of every class checked against every other product after each of eight list mutations, family lists; the result of the very first call of the process is mutated too) supplies failing histories and covers veregister, which is outside the IR.",
-            "Trusted: Coq kernel, the alias transcriber harness/cmd/gvgen/alias.go (which expressions allocate, which statements store references; unknown statements are rejected), Go harness. Partial: register lists (veregister) by the harness only; the inter-procedural step of the theorem is relative to an oracle for callee results.",
+            "Trusted: Coq kernel, the alias transcriber harness/cmd/gvgen/alias.go (which expressions allocate, which statements store references; unknown statements are rejected), Go harness. C17_lookups_return_fresh_objects closes the theorem over calls (any depth). Partial: register lists (veregister) by the harness only.",
             "DESIGN.md 0.2/C17, 4/C17"),
 })
 
@@ -99,7 +99,7 @@ CLAIMED.update({
 CLAIMED.update({
     "C19": ("Coq theorems (padding for all lengths/block sizes; CTR over an arbitrary block function incl. prefix independence; handler case analysis; MAC lookup) + correspondence through the add-only hook with crypto/aes as oracle",
             "Proved: C19_pad (1..blocksize bytes each equal to the pad length, total a multiple), C19_short_ignored, C19_bad_key, C19_dispatch (plaintext = CTR decryption of bytes 8.. with the 16-bit LE nonce as initial counter block; type 0x01 decoded by the solar-charger decoder, other types not), C19_ctr_prefix, C19_total (the decoding is C07's and never faults), C19_mac_lookup, C19_mac_address. The real handler is run (one BleStruct instance for the whole history) on payload lengths 0..64, all record types, key lengths 0..40, nonces, and device lookups with well-formed and malformed addresses; the judge recomputes the CTR decryption from single-block AES encryptions.",
-            TGEN_NOTE + "AES and cipher.NewCTR are trusted library code (block function = oracle); the handler's effects are read from its log output.", "DESIGN.md 4/C19"),
+            TGEN_NOTE + "AES is modelled in Coq (Ble/Aes.v: FIPS-197 Cipher, 128/192/256-bit keys; C19_aes_fips197: Appendix B and C.1-C.3 vectors; C19_aes_ctr: the handler under the device key) and executed by the runner; crypto/aes outputs for the counter blocks are cross-checked against it. cipher.NewCTR is modelled; the handler's effects are read from its log output.", "DESIGN.md 4/C19"),
     "C20": ("Coq theorems over the CLI model (count line, one line per delivered register sorted by key, error lines for silent devices) + the freshly built vecli binary against a pty device simulator + I/O log replay",
             "C20_output, C20_silent_during_connect, C20_silent_after_connect are proved over Cli.v (composition of connect, streaming and the stable sort). The real binary is run against a simulated device behind a pseudo-terminal for products of every class with random register contents and flags -, -v, --io-log; every printed value is parsed and compared with the model run on the same script; silence at ping / id query / after k answers (between frames and mid-frame) must give the documented error lines and termination; the written I/O log must replay to the same values.",
             API_NOTE + "The serial line discipline, the 200 ms timeout, printf formatting and process exit are runtime behaviour exercised, not proved.", "DESIGN.md 4/C20"),
